@@ -244,19 +244,24 @@ Fixpoint verify_choice_from (i : nat) (marks : list nat) (outs : list str) (gen 
       else verify_choice_from (S i) marks t gen
   end.
 
-Definition verify_choice (marks : list nat) (outs : list str) (gen : str) : res unit :=
+(* verifyChoiceMatch as it was BEFORE /repo commit 1e7a3a9: only the walk over
+   the existing choices.  Kept for the regression lemmas …_before_fix. *)
+Definition verify_choice_before_fix (marks : list nat) (outs : list str) (gen : str) : res unit :=
   verify_choice_from 0 marks outs gen.
 
-(* the corrected function (proposed_fixes/C20-verify-mark-beyond-last-choice.diff):
-   a mark that names no choice is a wrong answer *)
-Definition verify_choice_fixed (marks : list nat) (outs : list str) (gen : str) : res unit :=
-  if forallb (fun m => Nat.ltb m (List.length outs)) marks then verify_choice marks outs gen
-  else Err EWrongAnswer.
+(* verifyAnswerInRange (commit 1e7a3a9): [last] is the largest key of
+   correctByIndex (-1 for the empty map); the answer is rejected when
+   last >= choiceCount.  Returns true when the answer is in range. *)
+Definition marks_in_range (marks : list nat) (choice_count : nat) : bool :=
+  match marks with
+  | [] => true                                     (* last = -1 *)
+  | _ => Nat.ltb (list_max marks) choice_count     (* not (last >= choiceCount) *)
+  end.
 
-(* what the code does NOW.  After the proposed fix is applied to /repo this is the
-   one line to change (to [verify_choice_fixed]); the unguarded theorem
-   C20_verify_choice_fixed_iff then is the theorem about the code. *)
-Definition verify_choice_impl := verify_choice.
+(* verifyChoiceMatch (HEAD): verifyAnswerInRange, then the walk *)
+Definition verify_choice (marks : list nat) (outs : list str) (gen : str) : res unit :=
+  if marks_in_range marks (List.length outs) then verify_choice_from 0 marks outs gen
+  else Err EWrongAnswer.
 
 Section Verify.
   Variable run : str -> str.       (* renderer.go: runEvy(source, m.ResultType) *)
@@ -271,7 +276,7 @@ End Verify.
 
 (* QuestionModel.Verify = getVerifiedAnswer (for a match question that is not a
    sub-question): getAnswer, then verifyMatch by answer type.
-   [vchoice] is verify_choice or verify_choice_fixed. *)
+   [vchoice] is verify_choice (or verify_choice_before_fix, for regression). *)
 Section Question.
   Variables PK SK : Type.
   Variable parse_priv : str -> option SK.
@@ -440,11 +445,11 @@ Definition classify_case (c0 : bytes) (cs : list bytes) : sx :=
   | Some (r0, a0) => Str (map (fun c => class_char (ideal_hybrid_decrypt r0 a0 [] 0%nat c)) cs)
   end.
 
-(* (verify fixed ignore key seal none atype "answer" is_src (outs…) "gen" "run-out")
+(* (verify before_fix ignore key seal none atype "answer" is_src (outs…) "gen" "run-out")
    key: none | right | wrong.  With seal = true the front matter is first
    sealed (toy primitives, public key "K") exactly as the harness seals the
    real one with the real key. *)
-Definition verify_case (fixed ignore : bool) (key : sx) (seal vnone : bool) (ty : atype) (ans : str)
+Definition verify_case (before_fix ignore : bool) (key : sx) (seal vnone : bool) (ty : atype) (ans : str)
            (is_src : bool) (outs : list str) (gen run_out : str) : sx :=
   let f0 := mkFm ty ans [] in
   let f := if seal then toy_seal_fm (s_ "K") toy_key tt f0 else Ok f0 in
@@ -454,7 +459,7 @@ Definition verify_case (fixed ignore : bool) (key : sx) (seal vnone : bool) (ty 
   | Ok f =>
       enc_res_unit (question_verify bytes toy_parse toy_rsa_dec toy_gcm_open toy_b64_dec
                       (fun _ => run_out)
-                      (if fixed then verify_choice_fixed else verify_choice_impl)
+                      (if before_fix then verify_choice_before_fix else verify_choice)
                       ignore privs vnone f is_src outs gen)
   end.
 
@@ -519,11 +524,11 @@ Definition seal_case (x : sx) : sx :=
       | Some ty => if sym_is tag "marks" then marks_case ty ans else Sym (s_ "decode-error")
       | None => Sym (s_ "decode-error")
       end
-  | Lst [tag; fixed; ignore; key; seal; vnone; ty; Str ans; is_src; Lst outs; Str gen; Str run_out] =>
-      match dec_bool fixed, dec_bool ignore, dec_bool seal, dec_bool vnone, dec_atype ty,
+  | Lst [tag; before_fix; ignore; key; seal; vnone; ty; Str ans; is_src; Lst outs; Str gen; Str run_out] =>
+      match dec_bool before_fix, dec_bool ignore, dec_bool seal, dec_bool vnone, dec_atype ty,
             dec_bool is_src, dec_strs outs with
-      | Some fixed, Some ignore, Some seal, Some vnone, Some ty, Some is_src, Some outs =>
-          if sym_is tag "verify" then verify_case fixed ignore key seal vnone ty ans is_src outs gen run_out
+      | Some before_fix, Some ignore, Some seal, Some vnone, Some ty, Some is_src, Some outs =>
+          if sym_is tag "verify" then verify_case before_fix ignore key seal vnone ty ans is_src outs gen run_out
           else Sym (s_ "decode-error")
       | _, _, _, _, _, _, _ => Sym (s_ "decode-error")
       end
